@@ -4,6 +4,7 @@ import (
 	"bytes"
 	"encoding/json"
 	"fmt"
+	"github.com/Vedant9500/WTF/internal/history"
 	"os"
 	"os/exec"
 	"path/filepath"
@@ -173,6 +174,9 @@ func engineCrashWrite(ctx *Ctx) {
 		{"save-replace", []string{"save", "--keywords=changed", "--", "saved-tool-0 --flag value0 | sort", "the description was edited and is now different"}, "notebook", "saved successfully"},
 		// an immediate repeat of the newest history entry (update in place)
 		{"search-repeat", []string{"--database", mainP, "--all-platforms", "--", "earlier query 1"}, "history", ""},
+		// saving an existing command again with everything as before except the platforms it is declared for
+		{"save-replace-platforms-only", []string{"save", "--keywords=mine,kw0", "--category=personal", "--platforms=windows,macos", "--pipeline", "--",
+			"saved-tool-0 --flag value0 | sort", "my irreplaceable command number 0 with some longer description text"}, "notebook", "saved successfully"},
 	}
 	states := []c09State{
 		{"notebook-missing/history-missing", nil, nil},
@@ -465,6 +469,11 @@ func engineCrashWrite(ctx *Ctx) {
 	if ctx.Shard == 1%ctx.NShards || ctx.Shard == (ctx.NShards/2+1)%ctx.NShards {
 		c09FullVolume(ctx, h, base, mainP)
 	}
+	// Flavour 7: within one process, a failed write followed by a successful one on the same object (a long-running user of the
+	// history package): what the failed attempt prepared may not end up in the file the next attempt installs.
+	if ctx.Shard == 2%ctx.NShards || ctx.Shard == (ctx.NShards/2+2)%ctx.NShards {
+		c09InProcess(ctx, base)
+	}
 	ctx.R.Extra["strace_version"] = strings.TrimSpace(strings.SplitN(runOut("strace", "-V"), "\n", 2)[0])
 }
 
@@ -694,6 +703,83 @@ func c09FullVolume(ctx *Ctx, h *Home, base, mainP string) {
 						Detail: fmt.Sprintf("save printed its success message but the notebook is %s", state), Witness: cs})
 				}
 			}
+		}
+	}
+}
+
+func c09InProcess(ctx *Ctx, base string) {
+	vol := filepath.Join(base, "inproc")
+	os.MkdirAll(vol, 0o755)
+	if err := syscall.Mount("tmpfs", vol, "tmpfs", 0, "size=131072"); err != nil {
+		ctx.R.Path("full-volume-unavailable", 1)
+		return
+	}
+	defer syscall.Unmount(vol, syscall.MNT_DETACH)
+	path := filepath.Join(vol, "wtf", "search_history.json")
+	ballast := filepath.Join(vol, "ballast")
+	for round := 0; round < 12; round++ {
+		os.RemoveAll(filepath.Dir(path))
+		os.Remove(ballast)
+		sh := history.NewSearchHistory(path, 100)
+		var model []string
+		add := func(q string) {
+			sh.AddEntry(q, len(q)%7, "generic directory", time.Millisecond)
+			if n := len(model); n > 0 && model[n-1] == q {
+				return
+			}
+			model = append(model, q)
+		}
+		for i := 0; i < 5+round*7; i++ {
+			add(fmt.Sprintf("earlier query %d with some words to make it longer", i))
+		}
+		cs := map[string]interface{}{"flavour": "in-process: failed Save, then successful Save on the same object", "entries_before": len(model), "free_pages_during_the_failed_save": round % 4}
+		ctx.R.Begin(cs)
+		ctx.R.Eval(1)
+		if err := sh.Save(); err != nil {
+			ctx.R.Inconcl("baseline Save failed: " + err.Error())
+			continue
+		}
+		// fill the volume so that the next write cannot complete
+		free := c09FreePages(vol)
+		keep := int64(round % 4)
+		if free > keep {
+			os.WriteFile(ballast, make([]byte, (free-keep)*4096), 0o644)
+		}
+		for i := 0; i < 30; i++ {
+			add(fmt.Sprintf("query recorded while the disk was full %d %s", i, strings.Repeat("x", 200)))
+		}
+		err1 := sh.Save()
+		os.Remove(ballast)
+		add("query after space was freed")
+		err2 := sh.Save()
+		ctx.R.Path("in-process-sequences", 1)
+		if err1 != nil {
+			ctx.R.Path("in-process-sequences-with-a-failed-save", 1)
+			ctx.R.Nontriv("inproc", round)
+		}
+		if err2 != nil {
+			ctx.R.Violate(vlib.Violation{Property: "C09", Clause: "later-write-fails-after-interrupted-write", Path: "SearchHistory.Save/in-process",
+				Detail: fmt.Sprintf("Save after space was freed fails: %v (the earlier Save returned: %v)", err2, err1), Witness: cs})
+			continue
+		}
+		if len(model) > 100 { // the history keeps the newest 100
+			model = model[len(model)-100:]
+		}
+		b, _ := os.ReadFile(path)
+		var got c09Hist
+		okJ := json.Unmarshal(b, &got) == nil
+		same := okJ && len(got.Entries) == len(model)
+		for i := 0; same && i < len(model); i++ {
+			same = got.Entries[i].Query == model[i]
+		}
+		if !same {
+			n := -1
+			if okJ {
+				n = len(got.Entries)
+			}
+			ctx.R.Violate(vlib.Violation{Property: "C09", Clause: "torn-file", Path: "SearchHistory.Save/in-process",
+				Detail:  fmt.Sprintf("after a Save that failed (%v) and a later Save that succeeded on the same object the history file (%d bytes) parses: %v, holds %d entries, expected the %d recorded ones", err1, len(b), okJ, n, len(model)),
+				Witness: map[string]interface{}{"case": cs, "file_head_hex": fmt.Sprintf("%x", vlib.Trunc(string(b), 200))}})
 		}
 	}
 }
